@@ -210,5 +210,81 @@ q.verif_in_unit()
             }
 //@end
 
+// the same contract, for the public entry points
+pub open spec fn glue_post<A: Ord, I: Interpolate<A>>(d_old: ArrL<A>, d_new: ArrL<A>, ax: int, qs: Seq<N64>, r: Result<ArrL<A>, QuantileError>) -> bool {
+    &&& d_new.dims() == d_old.dims() && d_new.wf(ax)
+    &&& forall|j: int| 0 <= j < d_old.lanes(ax).len() ==> perm(#[trigger] d_new.lanes(ax)[j], d_old.lanes(ax)[j])
+    &&& (r is Err ==> d_new.lanes(ax) == d_old.lanes(ax))
+    &&& (!all_valid(qs, qs.len() as int) ==> exists|t: int| 0 <= t < qs.len() && all_valid(qs, t) && !(#[trigger] qs[t]).valid_q() && r == Err::<ArrL<A>, QuantileError>(QuantileError::InvalidQuantile(qs[t])))
+    &&& (all_valid(qs, qs.len() as int) && d_old.dims()[ax] == 0 ==> r matches Err(QuantileError::EmptyInput))
+    &&& (all_valid(qs, qs.len() as int) && d_old.dims()[ax] > 0 ==> (r matches Ok(res)
+            && res.dims() == d_old.dims().update(ax, qs.len() as usize) && res.wf(ax)
+            && forall|j: int, t: int| 0 <= j < res.lanes(ax).len() && 0 <= t < qs.len() ==>
+                lane_entry::<A, I>(d_new.lanes(ax)[j], qs[t], d_old.dims()[ax], #[trigger] res.lanes(ax)[j][t])))
+}
+
+impl<A: Ord + Clone> ArrL<A> {
+//@extract file=src/quantile/mod.rs impl=QuantileExt:ArrayBase fn=quantiles_axis_mut id=ArrL::quantiles_axis_mut tags=C01,C03,C17,C18,C19 body_tags=C01
+//@sig
+    fn quantiles_axis_mut<I>(&mut self, axis: Axis, qs: &QArr, interpolate: &I) -> (r: Result<ArrL<A>, QuantileError>)
+    where
+        I: Interpolate<A>,
+//@spec
+        requires lawful_ord::<A>(), lawful_clone::<A>(), old(self).wf(axis.0 as int), 2 * qs@.len() <= usize::MAX,
+        ensures glue_post::<A, I>(*old(self), *final(self), axis.0 as int, qs@, r), // [C01,C03,C17,C18,C19]
+//@rename_call view verif_view
+//@end
+
+//@extract file=src/quantile/mod.rs impl=QuantileExt:ArrayBase fn=quantile_axis_mut id=ArrL::quantile_axis_mut tags=C01,C03,C17,C19 body_tags=C01
+//@sig
+    fn quantile_axis_mut<I>(&mut self, axis: Axis, q: N64, interpolate: &I) -> (r: Result<ArrS<A>, QuantileError>)
+    where
+        I: Interpolate<A>,
+//@spec
+        requires lawful_ord::<A>(), lawful_clone::<A>(), old(self).wf(axis.0 as int),
+        ensures
+            final(self).dims() == old(self).dims() && final(self).wf(axis.0 as int), // [C03]
+            forall|j: int| 0 <= j < old(self).lanes(axis.0 as int).len() ==> perm(#[trigger] final(self).lanes(axis.0 as int)[j], old(self).lanes(axis.0 as int)[j]), // [C03]
+            !q.valid_q() ==> r == Err::<ArrS<A>, QuantileError>(QuantileError::InvalidQuantile(q)), // [C17]
+            q.valid_q() && old(self).dims()[axis.0 as int] == 0 ==> r matches Err(QuantileError::EmptyInput), // [C17]
+            // one value per lane: the strategy's interpolation of the order statistics floor / ceil(q (n-1)) of that lane
+            q.valid_q() && old(self).dims()[axis.0 as int] > 0 ==> (r matches Ok(res) && res.elems().len() == old(self).lanes(axis.0 as int).len()
+                && forall|j: int| 0 <= j < res.elems().len() ==> lane_entry::<A, I>(final(self).lanes(axis.0 as int)[j], q, old(self).dims()[axis.0 as int], #[trigger] res.elems()[j])), // [C01,C19]
+//@at entry
+        broadcast use axiom_dims;
+        proof { axiom_dims(old(self).dims(), axis.0 as int, 1usize); }
+//@closure 0
+|a: ArrL<A>| -> (o: ArrS<A>) requires a.wf(axis.0 as int), a.dims()[axis.0 as int] == 1 ensures o.elems().len() == a.lanes(axis.0 as int).len(), forall|j: int| 0 <= j < o.elems().len() ==> #[trigger] o.elems()[j] == a.lanes(axis.0 as int)[j][0]
+//@end
+
+//@extract file=src/quantile/mod.rs impl=Quantile1dExt:ArrayBase fn=quantile_mut id=ArrL::quantile_mut tags=C01,C03,C17,C19 body_tags=C01
+//@sig
+    fn quantile_mut<I>(&mut self, q: N64, interpolate: &I) -> (r: Result<A, QuantileError>)
+    where
+        I: Interpolate<A>,
+//@spec
+        requires lawful_ord::<A>(), lawful_clone::<A>(), old(self).dims().len() == 1, old(self).wf(0),
+        ensures
+            final(self).dims() == old(self).dims() && final(self).wf(0), // [C03]
+            perm(final(self).lanes(0)[0], old(self).lanes(0)[0]), // [C03] the array is a permutation of itself
+            !q.valid_q() ==> r == Err::<A, QuantileError>(QuantileError::InvalidQuantile(q)), // [C17]
+            q.valid_q() && old(self).dims()[0] == 0 ==> r matches Err(QuantileError::EmptyInput), // [C17]
+            // the strategy's interpolation of the order statistics floor / ceil(q (n-1)) of the whole 1-D array
+            q.valid_q() && old(self).dims()[0] > 0 ==> (r matches Ok(v) && lane_entry::<A, I>(final(self).lanes(0)[0], q, old(self).dims()[0], v)), // [C01,C19]
+//@at entry
+        proof { axiom_dims_1d(old(self).dims()); }
+//@end
+
+//@extract file=src/quantile/mod.rs impl=Quantile1dExt:ArrayBase fn=quantiles_mut id=ArrL::quantiles_mut tags=C01,C03,C17,C18,C19 body_tags=C01
+//@sig
+    fn quantiles_mut<I>(&mut self, qs: &QArr, interpolate: &I) -> (r: Result<ArrL<A>, QuantileError>)
+    where
+        I: Interpolate<A>,
+//@spec
+        requires lawful_ord::<A>(), lawful_clone::<A>(), old(self).dims().len() == 1, old(self).wf(0), 2 * qs@.len() <= usize::MAX,
+        ensures glue_post::<A, I>(*old(self), *final(self), 0, qs@, r), // [C01,C03,C17,C18,C19]
+//@end
+}
+
 } // verus!
 fn main() {}
